@@ -6,6 +6,7 @@ from typing import Any, Dict, List
 
 from harness.extract import action_mask as x_mask
 from harness.extract import action_templates as x_templ
+from harness.extract import request_callers as x_callers
 from harness.extract import request_core as x_core
 from harness.extract import request_schema as x_schema
 from harness.extract import request_validators as x_valid
@@ -39,7 +40,10 @@ MANIFEST = {
             "folder / two folders, services, applications of a host / two ports of a network node and whose history drives the "
             "siblings apart), the real mask bit with whether the real __call__ reaches a (stubbed) handler, executes entries for real "
             "against their bit, steps the environment against the mask read before the step (countdown boundaries), checks that "
-            "nothing of the mask survives a reset and that computing the mask is a pure observation.",
+            "nothing of the mask survives a reset and that computing the mask is a pure observation. The step around the mask is tied by "
+            "Gen/RequestCallers: the request the mask checks and the request the step executes are the same form_request of the same pair "
+            "(C11_gen_mask_and_step_form_same_request), and pre_timestep assigns no field a permission rule reads "
+            "(C11_gen_pretimestep_disjoint_from_rules).",
     "note": "C11-specific: form_request of each action is exercised on the real classes, not modelled; validator truth values are read "
             "from the real objects; that the step's own pre-processing changes no rule's truth is tested (boundary family), not proved; "
             "PrimaiteRayEnv wrappers are not driven.",
@@ -47,7 +51,7 @@ MANIFEST = {
                  "regenerated shape tables and translated validators; differential rig incl. full and sibling action maps",
     "design_ref": "5/C11",
 }
-MODULES = ["PrimaiteModel.Props.C11", "PrimaiteModel.Props.C11Memo", "PrimaiteModel.Props.C11Rules"]
+MODULES = ["PrimaiteModel.Props.C11", "PrimaiteModel.Props.C11Memo", "PrimaiteModel.Props.C11Rules", "PrimaiteModel.Props.C11Step"]
 EXE = "drv_c05"
 MASK_SCEN = ["data_manipulation", "test_primaite_session", "extended_config"]
 OTHER_SIBLING_SCEN = ["uc7_config", "firewall_actions_network", "basic_switched_network", "nodes_with_initial_files",
@@ -131,6 +135,7 @@ def env_level(ctx: Ctx):
         ctx.count(f"action-map-order:{order}")
         ctx.count("action-map-entries-listed-out-of-ascending-order", relisted)
         name = f"{name}[{order}]"
+        shape_seen: set = set()
         for ep in range(ctx.scale(2, 3) if order == "as-listed" else 1):
             ep_seed = rng.below(10 ** 6)
             if ep > 0:
@@ -162,7 +167,7 @@ def env_level(ctx: Ctx):
             if sib is not None:   # drive SIBLINGS apart: delete one file of a folder, stop one service of a host, one folder of two …
                 trans = sibs.diverging(amap, sib["first"]) or trans
                 raws = sibs.raw_divergers(sib["hosts"])
-            for step in range(ctx.scale(25, 120) if order == "as-listed" else (ctx.scale(30, 60) if sib is not None else ctx.scale(12, 60))):
+            for step in range(ctx.scale(20, 120) if order == "as-listed" else (ctx.scale(32, 64) if sib is not None else ctx.scale(12, 60))):
                 sim = env.game.simulation
                 if raws and rng.chance(1, 5):
                     q = rng.choice(raws)
@@ -191,6 +196,18 @@ def env_level(ctx: Ctx):
                                       + ("changed the simulation's described state" if before_state != after_state else
                                          f"gave a different mask at entries {[i for i in range(len(mask)) if int(mask[i]) != int(again[i])][:6]}"),
                                       {"mode": "mask-pure", **rp0, "seed": ep_seed, "actions": list(taken), "episode": ep, "step": step,
+                                       "action_index": 0})
+                if sib is not None:
+                    # live-tree shape oracle: every live service / application / NIC / folder / file is routed, under its name, to ITS OWN
+                    # request manager (a route whose func is anything else — a bound method, another component's manager — is a leaf or
+                    # a stranger to `check_valid`, whatever `__call__` makes of it); evaluated after run-time creations too
+                    for mm in rig.structure_mismatches(sim)[:3]:
+                        if json.dumps(mm, sort_keys=True) in shape_seen:
+                            continue   # one report per mismatch and variant (it stays in the tree for the rest of the episode)
+                        shape_seen.add(json.dumps(mm, sort_keys=True))
+                        ctx.violation({"kind": "live-route-shape", "what": mm.get("kind"), "level": mm.get("level")},
+                                      f"{name} ep{ep} step{step}: live request tree: {mm}",
+                                      {"mode": "mask-shape", **rp0, "seed": ep_seed, "actions": list(taken), "episode": ep, "step": step,
                                        "action_index": 0})
                 if sib is not None:   # how often the history really has siblings in DIFFERENT conditions when the mask is computed
                     groups: Dict[Any, set] = {}
@@ -221,8 +238,14 @@ def env_level(ctx: Ctx):
                                            "actions": list(taken), "episode": ep, "step": step, "action_index": i, "req": req})
                 # executed-action oracle: the mask bit computed immediately before REALLY executing the entry's request
                 fileops = [i for i, (ident, _) in amap.items() if ("file" in ident or "folder" in ident) and (sib is None or i >= sib["first"])]
-                for _ in range(ctx.scale(3, 6) if sib is None else 1):
+                rt_entries = [] if sib is None else [
+                    i for i, (ident, o) in amap.items() if i >= sib["first"] and (
+                        o.get("application_name") in sib["runtime_apps"].get(o.get("node_name"), []) or o.get("folder_name") == sibs.RT_FOLDER
+                        or o.get("file_name") == sibs.RT_FILE)]
+                for pick in range(ctx.scale(3, 6) if sib is None else 2):
                     i = rng.choice(fileops) if fileops and rng.chance(1, 2) else rng.below(n_actions)
+                    if sib is not None and pick == 1 and rt_entries:
+                        i = rng.choice(rt_entries)   # really execute an entry aimed at a target created during the episode
                     ident, opts = amap[i]
                     req = env.agent.action_manager.form_request(ident, opts)
                     bit = bool(sim._request_manager.check_valid(list(req), {}))
@@ -253,6 +276,12 @@ def env_level(ctx: Ctx):
                 a = rng.choice(trans) if trans and rng.chance(1, 2) else rng.below(n_actions)
                 if sib is not None and not rng.chance(1, 6):   # stay among the sibling entries
                     a = rng.choice(trans) if rng.chance(1, 2) else sib["first"] + rng.below(sib["added"])
+                if sib is not None and step < len(sib["prologue"]):
+                    # the first steps bring the run-time targets into being (create folder / files, INSTALL an application the host does
+                    # not have), one per step (= one tick): the whole mask is compared before every step, so every tick of INSTALLING
+                    # and every later state of their life is seen
+                    a = sib["prologue"][step]
+                    ctx.count("siblings:run-time-target-created:" + amap[int(a)][0])
                 # stepped-action oracle: the mask the USER holds (read before the step) against what `env.step(a)` does with
                 # action a — "executing it now" includes whatever the step does before the agent acts (pre_timestep)
                 v = _stepped_action_check(env, int(a))
@@ -283,6 +312,12 @@ def env_level(ctx: Ctx):
             for kind in ("node-service-restart", "node-shutdown", "node-startup", "node-reset"):   # every trigger kind gets its turn
                 # restarts: every follow-up of up to two services (the countdown of a service is the one the step itself completes)
                 chosen += rng.shuffle([pf for pf in pairs if amap[pf[0]][0] == kind])[: (ctx.scale(10, 30) if kind == "node-service-restart" else ctx.scale(2, 6))]
+            # the follow-ups whose OWN rule flips when a power countdown completes (startup wants OFF, shutdown / reset want ON) are always
+            # among them: they are the ones that tell a countdown completed early or late from one completed on time
+            power = [pf for pf in pairs if amap[pf[0]][0] in ("node-shutdown", "node-startup", "node-reset")
+                     and amap[pf[1]][0] in ("node-shutdown", "node-startup", "node-reset")]
+            for kind in ("node-shutdown", "node-startup", "node-reset"):
+                chosen += [pf for pf in rng.shuffle([pf for pf in power if amap[pf[0]][0] == kind]) if pf not in chosen][: ctx.scale(2, 4)]
             for t, f in (chosen if idle is not None else []):
                 for k in range(0, ctx.scale(8, 10)):
                     plan = [t] + [idle] * k
@@ -318,7 +353,7 @@ def env_level(ctx: Ctx):
 
 def replay(rec: dict) -> bool:
     rp = rec["replay"]
-    if rp.get("mode") not in ("mask-env", "mask-exec", "mask-step", "mask-reset", "mask-pure"):
+    if rp.get("mode") not in ("mask-env", "mask-exec", "mask-step", "mask-reset", "mask-pure", "mask-shape"):
         return c05.replay(rec)
     # rebuild the environment with the recorded listing order of every action map, re-seed, re-take the recorded actions, and
     # compare the mask bit of the recorded entry with what __call__ does (stubbed handlers) at that state
@@ -356,6 +391,10 @@ def replay(rec: dict) -> bool:
             env.step(a)
     sim = env.game.simulation
     i = rp["action_index"]
+    if rp["mode"] == "mask-shape":
+        bad = rig.structure_mismatches(sim)
+        env.close()
+        return not bad
     if rp["mode"] == "mask-pure":
         m1 = [int(b) for b in env.action_masks()]
         s1 = json.dumps(sim.describe_state(), sort_keys=True, default=str)
@@ -394,6 +433,7 @@ def run(ctx: Ctx):
     with lean_lock():
         ctx.extract("RequestCore", x_core.emit)
         ctx.extract("ActionMask", x_mask.emit)
+        ctx.extract(x_callers.GEN_NAME, x_callers.emit)   # Props/C11Step: mask and step form the same request; pre_timestep vs rules
         ctx.extract(x_templ.GEN_NAME, x_templ.emit)    # Props/C11Rules imports Props/C05Guards -> C05Schema -> Gen/ActionTemplates
         ctx.extract(x_schema.GEN_NAME, x_schema.emit)  # Props/C11Memo: on which edges of the tree those rules stand
         ctx.extract(x_valid.GEN_NAME, x_valid.emit)   # Props/C11Memo: which translated rules read their options
